@@ -29,6 +29,16 @@ WELL_KNOWN_INSTANCE_OK = {('StorageCommitment.n_action', 'affected_sop_instance_
 
 def run(repo, rep):
     sc = repo.module('sopclass')
+    rep.rule('C17.P8', 'no service function reads an ``except ... as name`` variable after its handler ended (the name is unbound '
+             'there: the provider would raise instead of answering)', 1)
+    from ..pitfalls import unbound_after_handler
+    p8 = []
+    n8 = 0
+    for f8 in repo.all_functions():
+        if f8.module.name in ('sopclass',) or f8.key.startswith('asceprovider:AssociationAcceptor.'):
+            n8 += 1
+            p8 += unbound_after_handler(f8)
+    rep.check(not p8, 'C17.P8', 'sopclass:services:handler-names', sc.relpath, '%d functions' % n8, '; '.join(p8))
     rep.trust('PS3.7 9.3 / 10.3: response carries Message ID Being Responded To, Affected SOP Class (and Instance) UID of the '
               'request; response command field = request | 8000H')
     rep.assume('an application handler signals failure only through EventHandlingError (documented in exceptions.py); any '
